@@ -124,7 +124,9 @@ class GbxPointTransform:
         # pix_src -> X -> X' -> pix_dst
         # inv(dst.A)*to_crs(src.A*pt)
 
-        xx, yy = np.asarray([pt.xy for pt in pts]).T
+        # float64: boundary points arrive as float32 (``roi_boundary``), and float32 arithmetic can push an
+        # image edge that sits exactly on the limit of a projection's domain (e.g. lon=180) just outside of it
+        xx, yy = np.asarray([pt.xy for pt in pts], dtype="float64").T
         xx, yy = self._src.pix2wld(xx, yy)
 
         if self._clamps is not None:
